@@ -71,8 +71,13 @@ let op_mz_msg a =
     let o = mz_exec_run t c s m x e ts in
     emit (Printf.sprintf "msg rlp=%d app=%d xc=%s xd=%s" (b2i o.mz_xrlp) (b2i o.mz_xapp) (mz_zlist o.mz_xc) (mz_zlist o.mz_xd))
   end else
-  let o = mz_run_i t c s m ts (mz_index meth) in
-  emit (Printf.sprintf "msg rlp=%d app=%d" (b2i o.mz_rlp) (b2i o.mz_applied))
+  let zp = match str a "zp" "" with
+    | "" -> (match mz_opt_zone (str a "oz" "-") with None -> MzZEmpty | Some z -> MzZKnown z)   (* the harness sends the object's own zone *)
+    | "e" -> MzZEmpty | "x" -> MzZUnknown | z -> MzZKnown (mz_nat (int_of_string z)) in
+  let o = mz_run_zp_i t c s m ts (mz_index meth) zp in
+  let cz = if str a "cz" "" = "" then "" else
+    (match mz_created_zone o (mz_opt_zone (str a "cz" "-")) zp with None -> " cz=-" | Some z -> Printf.sprintf " cz=%d" (mz_int z)) in
+  emit (Printf.sprintf "msg rlp=%d app=%d%s" (b2i o.mz_rlp) (b2i o.mz_applied) cz)
 
 let op_mz_zoneless _ = emit "zoneless rejected=1"
 
